@@ -526,6 +526,7 @@ func (c *FnVC) invEval(li *loopInfo, phis map[*ssa.Phi]string, heap HeapState) *
 			t := c.load(pt.Elem(), c.v(best.X))
 			c.cur = saved
 			env[nm] = envVal{t, pt.Elem()}
+			env["&"+nm] = envVal{c.v(best.X), best.X.Type()} // &nm in invariants
 			continue
 		}
 		if _, has := c.vals[best.X]; has || isConstVal(best.X) {
